@@ -88,8 +88,21 @@ def configured(case=None, final=True):
     return c
 
 
-def values_of(kind, n, form):
+def values_of(kind, n, form, case=None):
     """(python values of the list, the `values` object handed to ParameterValues)."""
+    vals, obj = _values_of(kind, n, form)
+    if case is not None and case.get("dup") and len(vals) >= 3 and isinstance(obj, list):
+        # the last value repeats the first one (a value listed twice is requested twice)
+        vals = list(vals[:-1]) + [vals[0]]
+        obj = [list(v) if isinstance(v, (list, tuple)) else v for v in vals]
+    if case is not None and case.get("cfgval") and isinstance(obj, list) and not KINDS[kind][2]:
+        # the list contains the value the parameter is configured with (last position)
+        vals = list(vals[:-1]) + [configured(case)[KINDS[kind][1]]]
+        obj = list(vals)
+    return vals, obj
+
+
+def _values_of(kind, n, form):
     s = _s()
     if kind == "T":
         vals = [150 + s + 100 * i for i in range(n)]
@@ -248,6 +261,13 @@ def enumerate_cases(tier, seed):
             for ex in EXEC:
                 add(kinds, [1] * len(kinds), ["lit"] * len(kinds), [True] * len(kinds), "custom", ex, 2, "zero")
                 cases[-1]["rerun"] = rerun
+    # ---- swept lists that contain the configured value of their parameter (sequential steps that resolve to identical
+    #      settings are still separate runs).  NB: a value listed TWICE in one list is outside the property (its two
+    #      entries would carry the same label; the parallel path refuses such lists) - see seeded/C05_9/note.txt
+    for kinds, lens in ((("A1", "B1"), (3, 2)), (("T", "A1"), (2, 3))):
+        for ex in EXEC:
+            add(kinds, lens, ["lit"] * len(kinds), [True] * len(kinds), "sequential", ex)
+            cases[-1]["cfgval"] = True
     # ---- long sweeps given as numpy expressions (more values than the expression has characters)
     for kinds, lens in ((("A1", "T"), (40, 2)), (("T", "A1"), (2, 40)), (("B1",), (30,))):
         for mode in ("product", "sequential"):
@@ -308,7 +328,7 @@ def reference_space(case):
         if case["mode"] == "custom":
             vals = table_values(kind, case["rows"])
         else:
-            vals = values_of(kind, n, form)[0]
+            vals = values_of(kind, n, form, case)[0]
         params.append((slot, [_canon_val(v) for v in vals]))
     if case["mode"] == "product":
         return [dict(zip([s for s, _ in params], combo)) for combo in itertools.product(*[v for _, v in params])]
@@ -375,7 +395,7 @@ def build_parameters(case):
         if case["mode"] == "custom":
             vals = ["_"] * veclen if veclen else "_"
         else:
-            vals = values_of(kind, n, form)[1]
+            vals = values_of(kind, n, form, case)[1]
         out.append(ParameterValues(key=key, values=vals, enabled=en))
     return out
 
@@ -419,7 +439,8 @@ def run_case(case):
 
     ref = reference_space(case)
     ref_full = [full_assignment(e, case) for e in ref]
-    sig_base = [mode, ex, [sorted(e.items()) for e in ref], case.get("rerun"), case.get("cfglen2")]
+    sig_base = [mode, ex, [sorted(e.items()) for e in ref], case.get("rerun"), case.get("cfglen2"), case.get("dup"),
+                case.get("cfgval")]
     nontrivial = len(ref) >= 2
     tmp = tempfile.mkdtemp(prefix="vp_c05_")
     probes.reset()
@@ -518,15 +539,23 @@ def run_case(case):
                     raise Problem("label-missing", f"no coordinate for swept key {KINDS[k][0]!r} "
                                   f"(looked for {coord_candidates(KINDS[k][0], enabled_keys)}) in {list(ds.coords)}")
             layout = [[names[k], list(ds.coords[names[k]].dims)] for k in en_kinds]
-            for elem, full in zip(ref, ref_full):
+            # declared value lists (a value may be listed more than once: its entries are told apart by their order)
+            declared = {}
+            for kind, n_, form_, en_ in zip(case["kinds"], case["lens"], case["forms"], case["enabled"]):
+                if en_:
+                    declared[kind] = [_canon_val(v) for v in values_of(kind, n_, form_, case)[0]]
+            idx_combos = list(itertools.product(*[range(len(declared[k])) for k in en_kinds]))
+            for (elem, full), combo in zip(zip(ref, ref_full), idx_combos):
                 sel = ds
-                for k in en_kinds:
+                for k, i_k in zip(en_kinds, combo):
                     slot = KINDS[k][1]
                     dim, pos = positions_of(sel, names[k], elem[slot])
-                    if len(pos) != 1:
-                        raise Problem("label-count", f"{len(pos)} entries carry the label {names[k]}={elem[slot]} "
-                                      f"(labels: {sel.coords[names[k]].values.tolist()})")
-                    sel = sel.isel({dim: pos})
+                    mult = declared[k].count(declared[k][i_k])
+                    occ = declared[k][:i_k].count(declared[k][i_k])
+                    if len(pos) != mult:
+                        raise Problem("label-count", f"{len(pos)} entries carry the label {names[k]}={elem[slot]}, the value "
+                                      f"is listed {mult} time(s) (labels: {sel.coords[names[k]].values.tolist()})")
+                    sel = sel.isel({dim: [pos[occ]]})
                 got = decode_entry(sel)
                 if got != full:
                     bad("select-data", f"the entry labelled {_short(elem)} holds data produced with "
